@@ -21,7 +21,7 @@ MUL_FUNCS = ['add_mul', 'add_mul_karatsuba', 'add_mul_karatsuba_with_efficient_s
              'add_mul_wallace', 'add_mul_pow2_m1']
 REQUIRED = {('mon:%s.checked' % f): 8 for f in MUL_FUNCS + ['generate_mul', 'generate_square', 'add_square', 'add_square_pow2_m1']}
 REQUIRED.update({'reach:karatsuba_recursive': 2, 'reach:square_split': 1, 'endian:big': 20, 'host:internal': 10,
-                 'unequal_widths': 20, 'width_one': 10, 'skewed_shapes': 30, 'chained_call': 20})
+                 'unequal_widths': 20, 'width_one': 10, 'skewed_shapes': 30, 'chained_call': 20, 'live_operand_list': 10})
 for _m in ('DEFAULT', 'KARATSUBA', 'ALTER', 'DADDA', 'WALLACE', 'POW2_M1'):
     REQUIRED['mulmode:' + _m] = 8
 
@@ -222,8 +222,14 @@ def run_item(item, ctx, host_case=None):
                 a, b = list(c.inputs[:n]), list(c.inputs[n:])
             if what == 'add_mul_karatsuba' and (max(n, m) >= 20 or max(n, m) == 18):
                 ctx.count('reach:karatsuba_recursive')
+            if host_case and host_case.get('live_b'):
+                # the caller passes what an accessor returned: the host's own live input list as the second operand
+                b = c.inputs
+                ctx.count('live_operand_list')
             A.CUR['intended_operands'] = [list(a), list(b)]
-            if host_case and host_case.get('same_list_object'):
+            if host_case and host_case.get('live_b'):
+                first = getattr(ar, what)(c, A.flavour(_frng, a, ctx), b, **A.be_kwargs(be))
+            elif host_case and host_case.get('same_list_object'):
                 first = getattr(ar, what)(c, a, b, **A.be_kwargs(be))
             else:
                 first = getattr(ar, what)(c, A.flavour(_frng, a, ctx), A.flavour(_frng, b, ctx), **A.be_kwargs(be))
@@ -319,10 +325,13 @@ def run_shard(spec, ctx):
                     host = A.add_operand_users(host, ops, rng)
                     ctx.count('host_with_operand_users')
                 hc = {'host': netgen.describe(host), 'mode': mode, 'operands': ops}
+                if rng.random() < 0.2:
+                    hc['live_b'] = True
+                    m = len(host.inputs)
                 run_item([what, n, m, rng.random() < 0.4], ctx, hc)
 
 
 def replay(case, ctx):
     install(ctx)
-    hc = {k: case[k] for k in ('host', 'mode', 'operands') if k in case} or None
+    hc = {k: case[k] for k in ('host', 'mode', 'operands', 'live_b', 'same_list_object', 'rseed') if k in case} or None
     run_item(case['item'], ctx, hc)
